@@ -136,6 +136,43 @@ CHECKS = {
         note=COMMON_NOTE + "bash 5 is the decoder/executor. `move` and `dedupe` scripts are compared with the real run but not executed "
              "(the property only requires execution equivalence for remove and link). FICLONE is emulated for `dedupe`.",
         design="4/C11"),
+    "C05": dict(
+        category="fault_enumeration",
+        technique="fault injection and crash-point enumeration with an LD_PRELOAD interposer; state-invariant oracle on the resulting tree",
+        text="For each scenario (remove / link / link --soft / dedupe with emulated FICLONE / move x small trees with hostile "
+             "names x text/JSON report) a recording run numbers the mutating libc calls on the tree; then exhaustively, each on "
+             "a tree restored with cp -a: SIGKILL before call k for every k (covers 'just after k-1'), call k failing with each "
+             "of EIO/ENOSPC/EXDEV/EPERM/EOPNOTSUPP/EACCES, and pairs (call k fails and the j-th following call, j=1..4, fails "
+             "too, i.e. the roll-back fails); sampled kills with the default thread pool. The oracle is a state invariant valid "
+             "at any instant: each processed path still has its bytes at its path, or (crash / failed roll-back) under a temp "
+             "sibling, or is a completed link/clone/copy (move: at the target); retained files untouched; nothing else changed; "
+             "after a handled failure: restored, warned, and 'Processed N' equals what the tree shows.",
+        note="Kill and failure instants are libc call boundaries (a kill inside a system call is not modelled); power-loss / "
+             "write-back ordering is out of reach; FICLONE success is emulated by the shim. A case whose planned fault does not "
+             "fire is inconclusive, never a pass. A clean-up failure after a completed replacement may leave the temp sibling "
+             "if 'Failed to remove temporary' is logged (the replacement is already complete).",
+        design="4/C05"),
+    "C18": dict(
+        category="exploration",
+        technique="runtime monitoring: move model + before/after inventories + syscall trace monitor + injected rename/copy/mkdir/unlink faults",
+        text="Real `group | move DIR` pipelines with DIR outside/inside the scanned tree, on the same file system or on tmpfs "
+             "(EXDEV, copy fallback), absolute or relative, pre-populated at mapped target paths with files, directories, "
+             "symlinks (also dangling) and non-directories at parent positions, optionally with one injected fault. Every "
+             "source the model selects must end up at DIR/<absolute source path> with identical bytes or stay in place with a "
+             "warning; every entry that existed under DIR (or behind its symlinks) is unchanged; in the trace, unlink(source) of "
+             "a copied file follows the last write to and the close of its target.",
+        note=COMMON_NOTE + "The set of sources to move comes from the C08 reference model. tmpfs is the second file system.",
+        design="4/C18"),
+    "C20": dict(
+        category="exploration",
+        technique="runtime monitoring: a foreign process holds fcntl locks; inventory + syscall log + drop model",
+        text="A helper process holds POSIX write or read locks on chosen droppable members (controls: locks on retained "
+             "members, locks released before the run); every operation runs with and without --no-lock on the real report. "
+             "Locked inodes' paths must be untouched and reported ('Failed to lock'), all other droppable files processed "
+             "exactly as the reference model says, the processed count must exclude the locked ones; with --no-lock they are "
+             "processed like the others.",
+        note=COMMON_NOTE + "`dedupe` runs with FICLONE emulation so that 'left alone' differs from 'failed anyway'.",
+        design="4/C20"),
 }
 
 NOT_YET = {}
